@@ -23,6 +23,7 @@ def dispatch (toks : List String) : String :=
   | "C10" :: rest => Poor.Drv.Query.handle rest
   | "C11" :: rest => Poor.Drv.Digest.handle rest
   | "C17" :: rest => Poor.Drv.Sched.handle rest
+  | "C08" :: rest => Poor.Drv.Multipart.handle rest
   | _ => "bad-op"
 
 partial def loop (h : IO.FS.Stream) (out : IO.FS.Stream) : IO Unit := do
